@@ -45,6 +45,15 @@ func (s *ConnSniffer) Read(p []byte) (n int, err error) {
 	return s.Sniffer.Read(p)
 }
 
+// CloseWrite passes a half-close on to the wrapped connection, so that a relay
+// can forward the peer's end of stream through the sniffer.
+func (s *ConnSniffer) CloseWrite() error {
+	if wc, ok := s.Conn.(interface{ CloseWrite() error }); ok {
+		return wc.CloseWrite()
+	}
+	return nil
+}
+
 func (s *ConnSniffer) CopyRelayRemainder(dst io.Writer, buf []byte) (int64, error) {
 	return copyDirect(dst, s.Conn, buf)
 }
